@@ -84,3 +84,78 @@ def _schema(n_est):
 
 for _n in (1, 2, 3):
     _schema(_n)
+
+
+# ---- the client's loops: every model call gets the level / estimand / aggregate of ITS OWN iteration ------------------
+CL = "elexmodel.client.ModelClient"
+GA_ = "elexmodel.models.GaussianElectionModel.GaussianElectionModel"
+CO_ = "elexmodel.models.ConformalElectionModel.ConformalElectionModel"
+BASE_ = "elexmodel.models.BaseElectionModel.BaseElectionModel"
+
+
+class _HandlerDouble:
+    """ModelResultsHandler as far as the loops use it: three frames, the aggregate list, and recorded add_* calls"""
+
+    def __init__(self, aggregates):
+        self.aggregates = list(aggregates)
+        self.calls = []
+
+    def pyvc_getattr(self, interp, name):
+        if name in ("reporting_units", "nonreporting_units", "unexpected_units"):
+            return ("frame", name)
+        if name == "aggregates":
+            return self.aggregates
+        if name in ("add_unit_predictions", "add_unit_turnout_predictions", "add_unit_intervals", "add_agg_predictions", "process_final_results", "write_data"):
+            return lambda *a, **k: self.calls.append((name, a, k))
+        if name == "final_results":
+            return {}
+        raise Exception(name)
+
+
+@unit("C13", "client_loops.every_model_call_gets_its_own_level_estimand_and_aggregate", fns=[f"{CL}.get_estimates", f"{CL}.get_aggregate_list"])
+def client_loops(h):
+    """the REAL loops of ModelClient.get_estimates over estimands x interval levels x aggregates (a slice of the real
+    function; the model and the results handler are recording doubles): the aggregate intervals of level alpha are
+    computed from the unit intervals of level alpha of the SAME estimand, and every add_* call files a result under the
+    level / estimand / aggregate it was computed for -- whatever else is requested, in whatever order"""
+    estimands = ["turnout", "dem"]
+    levels = [0.9, 0.7, 0.8]  # deliberately not sorted
+    aggregates = ["county_fips", "postal_code", "county_classification"]  # (the handler keeps every level but "unit")
+    log = []
+
+    def rec(name, ret):
+        def contract(interp, self_, *a, **k):
+            log.append((name, a, k))
+            return ret(*a, **k)
+
+        return contract
+
+    h.contracts[f"{CO_}.get_unit_predictions"] = rec("unit_predictions", lambda rep, non, e, **k: (("preds", e), None))
+    h.contracts[f"{GA_}.get_unit_prediction_intervals"] = rec("unit_intervals", lambda rep, non, alpha, e: ("upi", alpha, e))
+    h.contracts[f"{BASE_}.get_aggregate_predictions"] = rec("agg_predictions", lambda rep, non, unx, agg, e, **k: ("est", tuple(agg), e))
+    h.contracts[f"{GA_}.get_aggregate_prediction_intervals"] = rec("agg_intervals", lambda rep, non, unx, agg, alpha, upi, e, **k: ("api", tuple(agg), alpha, e))
+    h.contracts[f"{GA_}.get_all_conformalization_data_unit"] = rec("conf_unit", lambda: ("conf_unit", len(log)))
+    h.contracts[f"{GA_}.get_all_conformalization_data_agg"] = rec("conf_agg", lambda: ("conf_agg", len(log)))
+    model = h.obj(GA_)
+    handler = _HandlerDouble(aggregates)
+    self = h.obj(CL, model=model, results_handler=handler, office="S", election_id="e", geographic_unit_type="county", save_results=False, all_conformalization_data_unit_dict={a: {} for a in levels}, all_conformalization_data_agg_dict={a: {} for a in levels})
+    rp = lambda ev: {"target": "verif_replays:level_independence_replay", "args": [], "check": "result['exc'] is None and result['ok']"}  # noqa: E731
+    kind, env = h.slice(f"{CL}.get_estimates", first_assign="unit_predictions", last_assign="alpha_to_agg_prediction_intervals", env={"self": self, "estimands": estimands, "prediction_intervals": levels, "reporting_units": ("frame", "reporting_units"), "nonreporting_units": ("frame", "nonreporting_units"), "unexpected_units": ("frame", "unexpected_units"), "lhs_called_contests": [], "rhs_called_contests": [], "stop_model_call": []})
+    if kind == "raise":
+        return h.fail("no_raise", f"raised {env}")
+    aggs = {a: ("postal_code",) if a == "postal_code" else ("postal_code", a) for a in aggregates}
+    ai = [c for c in log if c[0] == "agg_intervals"]
+    h.ensures("one_aggregate_interval_call_per_estimand_aggregate_and_level", len(ai) == len(estimands) * len(aggregates) * len(levels), replay=rp)
+    ok_upi = all(a[5] == ("upi", a[4], a[6]) for _, a, k in ai)
+    h.ensures("aggregate_intervals_of_a_level_use_the_unit_intervals_of_that_level_and_estimand", ok_upi, why=str([(a[4], a[5], a[6]) for _, a, k in ai if a[5] != ("upi", a[4], a[6])][:2]), replay=rp)
+    seen = [(tuple(a[3]), a[4], a[6]) for _, a, k in ai]
+    h.ensures("every_combination_exactly_once", sorted(seen) == sorted((aggs[a], al, e) for e in estimands for a in aggregates for al in levels), why=str(seen[:3]), replay=rp)
+    # what is filed with the results handler
+    ui = [c for c in handler.calls if c[0] == "add_unit_intervals"]
+    h.ensures("unit_intervals_filed_per_estimand_under_their_own_level", [c[1][0] for c in ui] == estimands and all(dict(c[1][1]) == {al: ("upi", al, c[1][0]) for al in levels} for c in ui), replay=rp)
+    ap = [c for c in handler.calls if c[0] == "add_agg_predictions"]
+    want = [(e, a) for e in estimands for a in aggregates]
+    h.ensures("aggregate_results_filed_per_estimand_and_aggregate", [(c[1][0], c[1][1]) for c in ap] == want, replay=rp)
+    h.ensures("aggregate_results_carry_their_own_estimates_and_levels", all(c[1][2] == ("est", aggs[c[1][1]], c[1][0]) and dict(c[1][3]) == {al: ("api", aggs[c[1][1]], al, c[1][0]) for al in levels} for c in ap), why=str([c[1][2:] for c in ap][:1]), replay=rp)
+    cu = self.attrs["all_conformalization_data_unit_dict"]
+    h.ensures("calibration_data_kept_per_level_and_estimand", all(set(cu[al]) == set(estimands) for al in levels))
